@@ -231,7 +231,7 @@ META = {
         "A6 memref.alloc executed by several cores denotes one buffer and is not a synchronisation point",
         "memref.dealloc is a no-op (snax-to-func erases it); in the static-allocation variants the memory of a buffer is whatever address snax-allocate put into its descriptor, shared with every other buffer at that address",
         "static-allocation variants: the minimalloc package is absent; its stand-in is a first-fit packer over closed life times (lowest address first, so addresses are reused as often as possible); data derived from uninitialised memory in the sequential reference matches anything",
-        "buffer contents are touched only by data-mover and compute ops; allocations sit at function top level",
+        "buffer contents are written only by data-mover and compute ops; a tagged op that every core executes and that is given a buffer reads all of it (a fifth of the cases); allocations sit at function top level",
     ],
     "interleavings": "hash of the per-run sequence of (core, barrier | memory burst | done) scheduler events",
 }
